@@ -221,6 +221,20 @@ def enc2_lines(rng, cv, exe, cid, n):
         out.append("e2wb %d 1 %s" % (2 * nb + 1, c11.ptok(rng, cv, P, None)))
         out.append("e2rb " + enc(P, True))
         out.append("e2rb " + enc(P, False))
+    # elements of Fp2: round trip in the packed (unitary elements, FB+1 bytes) and the plain format; arbitrary strings
+    for _ in range(max(n // 4, 12)):
+        a0, a1 = rng.bits(8 * nb) % p, rng.bits(8 * nb) % p
+        if rng.chance(1, 8):
+            a0, a1 = rng.choice([(1, 0), (p - 1, 0), (0, 1), (0, 0), (a0, 0), (0, a1)])
+        out.append("f2rt %x %x %d" % (a0, a1, rng.below(3) > 0))
+        k = rng.below(6)
+        if k == 0:
+            out.append("f2rb %0*x%0*x" % (2 * nb, rng.choice([a0, p, p - 1, (1 << (8 * nb)) - 1]), 2 * nb, rng.choice([a1, p, p + 1, 0])))
+        elif k < 4:      # packed form with every kind of parity byte; a0 decodable for about half
+            out.append("f2rb %0*x%02x" % (2 * nb, rng.choice([a0, a0, a0, 1, p - 1, p, 0]), rng.choice([0, 1, 0, 1, 2, 3, 0x80, 0xff])))
+        else:
+            ln = rng.choice([0, 1, nb - 1, nb, nb + 2, 2 * nb - 1, 2 * nb + 1, 3 * nb])
+            out.append("f2rb " + (rng.bytes(ln).hex() or "."))
     for _ in range(n):
         k = rng.below(100)
         P = rng.choice(pool + [None])
